@@ -914,7 +914,11 @@ func (tb *TermBuilder) call(ctx *Ctx, c *ssa.Call, extract int) *Term {
 			opaque := false
 			for _, al := range alts {
 				if al.contains(func(x *Term) bool {
-					return x.Op == "addr" || x.Op == "make" || x.Op == "load" || x.Op == "opcode" || x.Op == "builtin"
+					if !(x.Op == "addr" || x.Op == "make" || x.Op == "load" || x.Op == "opcode" || x.Op == "builtin") {
+						return false
+					}
+					// only memory of the callee's own frame makes the result opaque
+					return x.Inst != 0 && tb.insts[x.Inst].ctx.isDescOrSelf(k)
 				}) {
 					opaque = true
 				}
@@ -954,6 +958,10 @@ func (tb *TermBuilder) call(ctx *Ctx, c *ssa.Call, extract int) *Term {
 		return tb.mk("ext", "", tb.inst(ctx, c, 0), args...)
 	case "neogointernal.Opcode2", "neogointernal.Opcode1", "neogointernal.Opcode1NoReturn", "neogointernal.Opcode2NoReturn", "neogointernal.Opcode3":
 		return tb.mk("opcode", "", tb.inst(ctx, c, 0), args...)
+	}
+	if name == "convert.ToBytes" && len(args) == 1 && len(com.Args) == 1 && isInteger(com.Args[0].Type()) {
+		// same conversion as any(x).([]byte): the variable-length VM encoding of an integer
+		return tb.mk("varint", "", 0, args[0])
 	}
 	if purePrims[name] {
 		return tb.mk("call", name, 0, args...)
